@@ -243,6 +243,7 @@ ErrorMatches(err, classes) ==
 (***************************************************************************)
 (* Evaluation.  Results are sets; helper operators lift sequencing.        *)
 (***************************************************************************)
+RECURSIVE Cap(_, _, _), CapSeq(_, _, _, _)
 RECURSIVE Ev(_, _, _), EvSeq(_, _, _, _), EvCall(_, _, _), EvCond(_, _, _, _), EvSeqTask(_, _, _, _, _),
           EvCatchAll(_, _, _), EvMap(_, _, _)
 
@@ -312,18 +313,30 @@ EvSeqTask(items, ctx, exp, i, acc) ==
        Errs(rs) \cup UNION {EvSeqTask(items, ctx, exp, i + 1, Append(acc, v)) : v \in Vals(rs)}
 
 \* catch_all over a list of expressions: waits for all; errors are values in the list handed to recover
+\* catch_all(exprs, classes, recover): exprs is a NESTED value; every expression leaf in it is evaluated to its
+\* end and a failing leaf leaves its exception in place.  Cap returns the possible captures
+\* [v: the nested value with exceptions in place, errs: the errors in leaf order].
+CapSeq(es, ctx, exp, i) ==
+  IF i > Len(es) THEN {[vs |-> <<>>, errs |-> <<>>]}
+  ELSE {[vs |-> <<h.v>> \o r.vs, errs |-> h.errs \o r.errs] : h \in Cap(es[i], ctx, exp), r \in CapSeq(es, ctx, exp, i + 1)}
+Cap(e, ctx, exp) ==
+  CASE e.k = "list" -> {[v |-> ListV(c.vs), errs |-> c.errs] : c \in CapSeq(e.items, ctx, exp, 1)}
+    [] e.k = "tuple" -> {[v |-> TupleV(c.vs), errs |-> c.errs] : c \in CapSeq(e.items, ctx, exp, 1)}
+    [] e.k = "dict" ->
+         \* leaves are visited keys first, then values
+         LET n == Len(e.items)
+             flat == [i \in 1..(2 * n) |-> IF i <= n THEN e.items[i][1] ELSE e.items[i - n][2]]
+         IN {[v |-> DictV([i \in 1..n |-> <<c.vs[i], c.vs[n + i]>>]), errs |-> c.errs] : c \in CapSeq(flat, ctx, exp, 1)}
+    [] OTHER -> {IF IsErr(r) THEN [v |-> ExcV(r), errs |-> <<r>>] ELSE [v |-> r, errs |-> <<>>] : r \in Ev(e, ctx, exp)}
+
 EvCatchAll(e, ctx, exp) ==
-  LET n == Len(e.items)
-      per == [i \in 1..n |-> Ev(e.items[i], ctx, exp)]
-      combos == {f \in [1..n -> UNION {per[i] : i \in 1..n}] : \A i \in 1..n : f[i] \in per[i]}
-  IN UNION {
-       LET errsIn == SelectSeq(f, LAMBDA r : IsErr(r)) IN
-       IF errsIn = <<>> THEN {ListV(f)}
-       ELSE IF e.recover = "" THEN {errsIn[1]}
-       ELSE IF \A i \in 1..Len(errsIn) : ErrorMatches(errsIn[i], e.cls)
-            THEN Ev(Call(e.recover, <<Val(ListV([i \in 1..n |-> IF IsErr(f[i]) THEN ExcV(f[i]) ELSE f[i]]))>>), ctx, exp)
-            ELSE {SelectSeq(errsIn, LAMBDA r : ~ErrorMatches(r, e.cls))[1]}
-       : f \in combos}
+  UNION {
+       IF c.errs = <<>> THEN {ListV(c.vs)}
+       ELSE IF e.recover = "" THEN {c.errs[1]}
+       ELSE IF \A i \in 1..Len(c.errs) : ErrorMatches(c.errs[i], e.cls)
+            THEN Ev(Call(e.recover, <<Val(ListV(c.vs))>>), ctx, exp)
+            ELSE {SelectSeq(c.errs, LAMBDA r : ~ErrorMatches(r, e.cls))[1]}
+       : c \in CapSeq(e.items, ctx, exp, 1)}
 
 \* map_(task, xs): xs evaluated, then the task applied to every element in parallel
 EvMap(e, ctx, exp) ==
